@@ -12,11 +12,11 @@ from adapter import SARGS
 NARGS = len(SARGS)
 KEYCLS_DEFAULT = [0, 1, 1, 1, 2, 3, 4, 4, 5, 6, 7, 8, 8, 9, 10]
 KEYCLS_CUSTOM = [0, 1, 1, 1, 1, 1, 2, 2, 2, 1, 1, 1, 1, 2, 2]
-MAPOF = [0, 0, 0, 1, 2, 2]
+MAPOF = [0, 0, 0, 1, 2, 2, 0]
 
 
 def ts_ops():
-    for c in range(3):
+    for c in range(4):
         for a in (0, 1, 4, 6, 8, 9, 10):
             yield "tsnew C%d A%d" % (c, a)
         yield "tsclear C%d" % c
@@ -25,18 +25,18 @@ def ts_ops():
 
 # the instance table is private: every script ends by constructing each class once, which shows
 # (same object / new object, __init__ run or not) what the table held
-PROBES = ["tsnew C0 A0", "tsnew C1 A1", "tsnew C2 A0", "tsobs"]
+PROBES = ["tsnew C0 A0", "tsnew C1 A1", "tsnew C2 A0", "tsnew C3 A1", "tsobs"]
 
 
 def ss_ops(ninst):
-    for c in range(6):
+    for c in range(7):
         for a in range(NARGS):
             yield "ssnew C%d A%d" % (c, a)
             yield "ssdrop C%d A%d" % (c, a)
             yield "sscheck C%d A%d" % (c, a)
         yield "ssall C%d" % c
         yield "ssclear C%d" % c
-        for d in (0, 1, 2, 4, 5):
+        for d in (0, 1, 2, 4, 5, 6):
             yield "ssalli C%d C%d A%d" % (c, d, (c + 2 * d) % 9)
     for i in range(ninst):
         for a in range(NARGS):
